@@ -4,6 +4,7 @@ import time
 import z3
 
 from harness import common as H, apiops as A, timeargs as TA
+from shadow.dispatch import SYM
 from shadow import loader, engine as E, concretize as C, timeenv
 from shadow.values import (SymSeq, SymInt, SymBool, SymChoice, SymSet, Hx, b_and, b_not, b_or, bterm, i_eq, i_ite,
                            b_iff, sym_eq, nibble_of)
@@ -93,6 +94,14 @@ def run_case(case, eng, res):
             mask = A.fresh_int(path, "mask", -(1 << 20), 1 << 20)
             info["mask_in"] = mask
             info["json"] = lambda m: C.ev_int(m, mask)
+            if case.get("after"):
+                # an earlier decode whose caller then empties the set it was handed (its own object to do with as it likes)
+                # (the same mask: where a remembered result would be handed out again)
+                path.assume(bterm(b_and(mask >= 2, mask <= 254)))
+                r0 = tools.bit_summary_to_days(mask)
+                SYM.callm(r0, "clear", (), {})
+                info["before"] = lambda m: C.ev_int(m, mask)
+                info["clears"] = True
             try:
                 r = tools.bit_summary_to_days(mask)
                 return ("ok", r, info)
@@ -179,6 +188,8 @@ def _replay(form, info, m):
     r = _replay0(form, info, m)
     if "before" in info:
         r["before"] = [[info["before"](m)]]
+    if info.get("clears"):
+        r["caller_clears_result"] = True
     return r
 
 
@@ -198,6 +209,7 @@ def main(tier):
             cases.append({"form": f, "n": n})
     cases.append({"form": "list", "n": 3, "after": 2})
     cases.append({"form": "list", "n": 2, "after": 1})
+    cases.append({"form": "decode", "after": 1})
     results = H.run_cases("harness.C12", "run_case", cases)
     nw = H.validate_call_witnesses(results)
     H.finish(PID, tier, "model_checking", results, t0,
